@@ -11,8 +11,8 @@
     parameter that NumPy broadcasting pairs with the element.
 
   Python source modelled (pinned tree after the `fix:` commits):
-    arrayproxy.py:125-216 (`__init__` copies), 387-410 `_get_unscaled`, 412-426 `_get_scaled`,
-      428-461 `get_unscaled/__array__/__getitem__`, 463-485 `reshape`
+    arrayproxy.py:125-216 (`__init__` copies), 222-236 `copy`, 387-410 `_get_unscaled`, 412-426
+      `_get_scaled`, 428-461 `get_unscaled/__array__/__getitem__`, 463-486 `reshape`
     ecat.py:688-743 `EcatImageArrayProxy.__array__/__getitem__`, fileslice.py:140-167 `slice2outax`,
       fileslice.py:236-266 `predict_shape`
     parrec.py:649-690 `PARRECArrayProxy._get_unscaled/_get_scaled`
@@ -80,11 +80,21 @@ def reshapeShape (size : Nat) (shape : List Int) : Except Err (List Nat) :=
     .ok ((resolveShape size shape).map Int.toNat)
   else .error .value
 
-/-- `ArrayProxy.reshape(shape)` (arrayproxy.py:463-485): same file, dtype, offset, slope, inter;
-    new shape.  (`order` is NOT passed on: the new proxy gets the class default order `dflt`.) -/
-def reshape {σ} (dflt : Order) (p : Params σ) (shape : List Int) : Except Err (Params σ) := do
+/-- `ArrayProxy.reshape(shape)` (arrayproxy.py:463-486, after the `fix:` commit "reshape keeps the
+    memory order"): same file, dtype, offset, slope, inter AND order; new shape. -/
+def reshape {σ} (p : Params σ) (shape : List Int) : Except Err (Params σ) := do
+  let s ← reshapeShape p.shape.prod shape
+  pure { p with shape := s }
+
+/-- the pinned `reshape`: `order` was not passed on, the new proxy got the class default `dflt` -/
+def reshapeOrig {σ} (dflt : Order) (p : Params σ) (shape : List Int) : Except Err (Params σ) := do
   let s ← reshapeShape p.shape.prod shape
   pure { p with shape := s, order := dflt }
+
+/-- `ArrayProxy.copy()` (arrayproxy.py:222-236, after the `fix:` commit "copy keeps the memory
+    order"): a new proxy with the same parameters; the pinned code dropped `order` as well. -/
+def copy {σ} (p : Params σ) : Params σ := p
+def copyOrig {σ} (dflt : Order) (p : Params σ) : Params σ := { p with order := dflt }
 
 /-! ### header → proxy: parameters are copied (`frozen_params`) -/
 
